@@ -903,7 +903,9 @@ pub fn run_c17(case: &C17Case, cut: usize, o: &mut Outcome) -> Option<Failure> {
                 let op = w.start_op(0, OpSpec::Publish(PublishSpec {
                     qos: Some(qos),
                     topic: Some(format!("c17/{k}")),
-                    payload: Some(format!("payload-{k}").into_bytes()),
+                    // every fifth publish is 70 KiB long (packets of very different sizes in the
+                    // retransmission queue)
+                    payload: Some(if k % 5 == 2 { let mut v = format!("payload-{k}").into_bytes(); v.resize(70_000, b'.'); v } else { format!("payload-{k}").into_bytes() }),
                     user_props: vec![("k".into(), format!("{k}"))],
                     retain: Some(k % 2 == 0),
                     ..Default::default()
